@@ -33,7 +33,7 @@ def cfg_text(c, guard_p, guard_e, check):
          "  MaxHist = %d" % c["hist"], "  MaxH = %d" % c["maxh"], "  CompileDocs = " + tla_set(c["compile"]),
          "  ParseDocs = " + tla_set(c["parse"]), "  InlineSS = " + tla_set(c["inline_ss"]), "  InlineSrc = " + tla_set(c["inline_src"]),
          "  Vals = " + tla_set(c["vals"]), "  GuardP = %s" % ("TRUE" if guard_p else "FALSE"),
-         "  GuardE = %s" % ("TRUE" if guard_e else "FALSE"), "VIEW View"]
+         "  GuardE = %s" % ("TRUE" if guard_e else "FALSE"), "VIEW " + ("ViewMC" if check else "View")]
     if check:
         s += ["INVARIANT Refinement", "INVARIANT TypeInv", "INVARIANT ImplAgrees", "INVARIANT OracleDeterministic",
               "INVARIANT DeviationsAreReal", "PROPERTY Sticky"]
@@ -281,7 +281,7 @@ def classify(ex, k, rj, fresh):
 def constants(tier):
     if tier == "quick":
         mc = dict(hist=6, maxh=1, compile=["S2", "S3", "SX"], parse=["D1", "D2", "DX"], inline_ss=ALL_SS, inline_src=ALL_SRC, vals=["str", "num"])
-        gen = dict(mc, hist=5)
+        gen = dict(mc, hist=4)
         kd = dict(mc, hist=4, compile=["S3"], parse=["D1"], inline_ss=["S1", "S2", "S4"], inline_src=["D1"], vals=["str", "num", "obj"])
     else:
         mc = dict(hist=8, maxh=2, compile=["S2", "S3", "S4", "SX"], parse=["D1", "D2", "DX"], inline_ss=ALL_SS, inline_src=ALL_SRC, vals=["str", "num", "obj"])
@@ -294,7 +294,7 @@ def gen_histories(wd, name, c, guard_p, timeout):
     cfg = os.path.join(wd, name + ".cfg")
     open(cfg, "w").write(cfg_text(c, guard_p, False, False))
     dump = os.path.join(wd, name)
-    r = vlib.tlc(MC, cfg, workers=1, name="c06" + name, timeout=timeout, extra=["-dump", dump, "-noGenerateSpecTE"])
+    r = vlib.tlc(MC, cfg, workers=min(4, vlib.NCPU), name="c06" + name, timeout=timeout, extra=["-dump", dump, "-noGenerateSpecTE"])
     if not r["ok"]:
         raise vlib.Infra("GEN failed: " + r["out"][-3000:])
     hs, classes = [], set()
